@@ -23,8 +23,15 @@ LEVEL_TEXT = ('Partial. Coq theorems over R: (a) on the kernels regenerated from
               'lam >= 0 and kappa monotone are proved on the generated code, and every sub-step of the model is exactly these statements per '
               'constraint (penalties untouched when the sub-solver failed). Bound-constrained front end: initial multipliers (generated clip) >= 0, '
               'initial penalties 0.25; hand model bc_solve (reset_kappa, scaling in, invScaling out, get_multipliers = lam*scaling): every normal '
-              'return has lam >= 0, get_multipliers >= 0, 0 < kappa0 <= kappa componentwise and passed the termination test; bc_solve is tied by '
-              'checks on real bound_constrained_solve runs and the control-flow IR only (no executed trace correspondence for this thin wrapper). '
+              'return has lam >= 0, get_multipliers >= 0, 0 < kappa0 <= kappa componentwise and passed the termination test. COMPLETE front-end model '
+              'bc_front (model/M_C04_BC.v: flags useWarmStart / updatePrecond / sub_problem_callback, warm-start increment as an arbitrary oracle, '
+              'own event trace: reset_kappa, update_precond arguments, warm start, stores to .p, sub_problem_callback argument, nested solve, '
+              'invScaling*xBar and get_multipliers): for ALL flags and oracles every normal return has the same conclusions, its trace is '
+              'reset_kappa, then a prologue with exactly one store of p placed after the warm start and before any event of the nested solve, '
+              'then the nested solve started from kappa = constraintKappa at scaling*x0 (+ warm increment), all observed multipliers >= 0; '
+              'bc_front computes the same outcome and outer-loop trace as bc_solve (refinement theorem). bc_front is tied by an EXECUTED trace '
+              'correspondence: the real bound_constrained_solve on a real BoundConstrainedObjective (non-trivial dof scaling) with scripted/real '
+              'sub-solver, linear update and warm start, all 8 flag combinations, compared event by event with the model run on the logged oracle answers. '
               '(c) exact KKT + convex objective + concave constraints => global constrained minimiser (unique if strictly convex), and the '
               'quantitative version: a tol-KKT point of a mu-strongly convex problem is within (eg + sqrt(eg^2 + 4 mu (S+Vi)))/(2 mu) of the '
               'minimiser (abstract first-order form). (c2) the convex clause over LISTS OF R (vectors of length n, gradients as lists, pairing = dot '
@@ -43,7 +50,7 @@ LEVEL_TEXT = ('Partial. Coq theorems over R: (a) on the kernels regenerated from
               'start and before the first sub-problem solve, no other store to .p, for every combination of useWarmStart / updatePrecond / '
               'updatePrecondBeforeWarmStart -- so the oracles of (b) are those of the problem that was asked for. '
               'Not proved: convergence; that JAX autodiff of the AL function yields al_gradient (measured); any contract on the GMRES answer '
-              '(linear_update / newton_step are oracles); no executed trace correspondence for the thin wrapper bound_constrained_solve. '
+              '(linear_update / newton_step / warm_start_increment are oracles). '
               'The model is tied to the code by a '
               'trace correspondence with scripted oracles; the conclusions are also evaluated on real end-to-end solves (incl. the '
               'bound-constrained front end) and against an independent active-set enumeration for convex QPs, including load-stepping histories '
@@ -51,8 +58,8 @@ LEVEL_TEXT = ('Partial. Coq theorems over R: (a) on the kernels regenerated from
               'parameters of that call).')
 TECHNIQUE = 'Coq proof (Reals + Coquelicot) over regenerated kernels and a hand state-machine model; vm_compute/PrimFloat trace correspondence'
 GEN = ['ConstrainedObjective', 'AlSolver', 'BoundConstrainedObjective', 'CFG_drivers']
-TARGETS = ['proofs/L_C04.vo', 'model/M_C04_AL.vo', 'proofs/L_C04_CFG.vo', 'proofs/L_C04_Upd.vo', 'proofs/L_C04_Cvx.vo', 'proofs/L_C04_Newton.vo']
-COQ_FILES = ['base/Num.v', 'base/Piecewise.v', 'model/M_C04_AL.v', 'model/M_C19_CFG.v', 'proofs/L_C04.v', 'proofs/L_C04_CFG.v', 'proofs/L_C04_Upd.v', 'proofs/L_C04_Cvx.v', 'proofs/L_C04_Newton.v', 'props/P_C04.v']
+TARGETS = ['proofs/L_C04.vo', 'model/M_C04_AL.vo', 'proofs/L_C04_CFG.vo', 'proofs/L_C04_Upd.vo', 'proofs/L_C04_Cvx.vo', 'proofs/L_C04_Newton.vo', 'model/M_C04_BC.vo', 'proofs/L_C04_BC.vo']
+COQ_FILES = ['base/Num.v', 'base/Piecewise.v', 'model/M_C04_AL.v', 'model/M_C19_CFG.v', 'proofs/L_C04.v', 'proofs/L_C04_CFG.v', 'proofs/L_C04_Upd.v', 'proofs/L_C04_Cvx.v', 'proofs/L_C04_Newton.v', 'model/M_C04_BC.v', 'proofs/L_C04_BC.v', 'props/P_C04.v']
 TRUSTED = ['Coq 8.16.1 kernel + vm_compute (no native_compute)',
            'tools/vlib/py2coq.py translator (fischer_burmeister, fischer_burmeister_jac_l, nested f of create_augmented_lagrangian with objective/constraint as oracles), cross-checked at binary64 against the implementation',
            'statement extraction of py2coq (extract= with attrs/lens/masked_set rewrites: obj.field -> local name, len(v) -> scalar parameter, '
@@ -64,8 +71,12 @@ TRUSTED = ['Coq 8.16.1 kernel + vm_compute (no native_compute)',
            'semantics of model/M_C19_CFG.v (conditions independent, loops 0/1/2 passes); cross-checked by the load-stepping conclusion stream',
            'hand model of NewtonSolver.globalized_newton_step (Section GNewton of model/M_C04_AL.v), tied by the executed correspondence with newton_step '
            'and jax.grad replaced by logging/scripted wrappers (returned step rtol 1e-11, number of tests / slope / residual evaluations exact)',
+           'hand model model/M_C04_BC.v of the complete bound_constrained_solve, tied by the executed trace correspondence `bc trace` (front-end and outer-loop '
+           'event sequence exact; floats rtol 1e-9); harness-side wrappers around reset_kappa / update_precond / WarmStart.warm_start_increment / the .p attribute '
+           '(class-swapped property) / sub_problem_callback that log and pass through (warm start optionally replaced by a scripted vector)',
            'theorems are over exact reals; binary64 rounding is covered only by the correspondence']
 ASSUMPTIONS = ['exact real arithmetic in theorems',
+               'bc_front: WarmStart.warm_start_increment is an arbitrary function `warm` of the scaled starting point (its CG contract belongs to C19)',
                'oracles (sub-problem solver, constraint, grad_x of the AL function, linear_update) are arbitrary functions of the call site and the state',
                'grad_x of the AL function is grad f - J^T max(lam - kappa c, 0): chain rule through the proved penalty derivative (JAX autodiff, checked numerically in L1)',
                'convex clause: first-order convexity/concavity inequalities (dconvex / dstrict / dstrong / dconcave over lists of length n) as hypotheses on the user functions; '
@@ -81,8 +92,12 @@ RULE = ('L1: seeded problems (2-4 unknowns, 1-4 linear constraints) run through 
         'the reference.  Newton globalisation: seeded residuals (cubic / arctan, 1-3 unknowns), scripted Newton steps (exact, overshooting, reversed, '
         'random, reported failure), forcing term / t / maxLinesearchIters varied; distinct by (n, number of cutbacks) when a step is returned. '
         'Load stepping: parameters changing at every call, the flag combinations of the later calls cycling through all of useWarmStart x updatePrecond x '
-        'updatePrecondBeforeWarmStart; a step is distinct by (front end, family, flags, active set) and counts only when it returned.')
-IMPORTS = ['From OV.gen Require Import Gen_ConstrainedObjective Gen_AlSolver Gen_BoundConstrainedObjective.', 'From OV.model Require Import M_C04_AL.']
+        'updatePrecondBeforeWarmStart; a step is distinct by (front end, family, flags, active set) and counts only when it returned.  '
+        'bc trace: one real BoundConstrainedObjective per shape (n, m) in {(2,1),(3,2)} (thorough: +(4,3),(3,3)) with a dof scaling != 1 from the preconditioner diagonal; '
+        'per case new QP parameters, stale parameters / stale grown penalties left on the objective, arbitrary initial multipliers, the 8 combinations of '
+        'useWarmStart x updatePrecond x sub_problem_callback cycled, warm start real (CG) or a scripted vector, sub-solver / linear update real, noisy or arbitrary; '
+        'distinct by (shape, flags, outer-loop event-kind sequence, outcome).')
+IMPORTS = ['From OV.gen Require Import Gen_ConstrainedObjective Gen_AlSolver Gen_BoundConstrainedObjective.', 'From OV.model Require Import M_C04_AL M_C04_BC.']
 
 SQ = 2.0 - math.sqrt(2.0)
 
@@ -752,7 +767,7 @@ class Recorder:
             self.pending = None
         return t
 
-    def run(self, x0, als, subs):
+    def run(self, x0, als, subs, call=None):
         M, obj, onp, jnp = self.M, self.obj, self.M['onp'], self.M['jnp']
         Al, Eq = M['Al'], M['Eq']
         o_con, o_res, o_ncp, o_up = obj.constraint, obj.total_residual, obj.ncp, obj.update_precond
@@ -822,7 +837,10 @@ class Recorder:
             if rec.in_solver:
                 return o_up(x)
             rec.flush()
-            rec.events.append(('pu', rec.it))
+            if rec.it < 0 and getattr(rec, 'front', None) is not None:      # a front end's own update_precond, before the outer loop
+                rec.front.append(('bcpu', onp.array(x)))
+            else:
+                rec.events.append(('pu', rec.it))
             if rec.script['need_precond']:
                 o_up(x)
             rec.text()
@@ -856,8 +874,11 @@ class Recorder:
         try:
             with contextlib.redirect_stdout(self.buf):
                 try:
-                    x = Al.augmented_lagrange_solve(obj, jnp.array(x0), obj.p, als, subs, callback=callback,
-                                                    sub_problem_solver=sub_solver, useWarmStart=False, updatePrecond=False)
+                    if call is not None:       # another front end around the same loop (bound_constrained_solve: BCRecorder)
+                        x = call(callback, sub_solver)
+                    else:
+                        x = Al.augmented_lagrange_solve(obj, jnp.array(x0), obj.p, als, subs, callback=callback,
+                                                        sub_problem_solver=sub_solver, useWarmStart=False, updatePrecond=False)
                     self.flush()
                     out = ('ret', onp.array(x), onp.array(obj.lam), onp.array(obj.kappa))
                     # what the conclusion is judged on: constraint and grad_x AL re-evaluated at the returned point with the
@@ -894,6 +915,12 @@ def model_expr(case, rec):
     grads = C.clist(['(%s, %s)' % (site_term(k), cvec(v)) for k, v in rec.grads.items()])
     lins = C.clist(['(%s, (%s, %s, %s))' % (site_term((it, 'Sub')), cvec(dx), cvec(dl), 'true' if fl else 'false')
                     for it, (dx, dl, fl) in sorted(rec.lins.items())])
+    if case.get('kind') == 'bct':      # the complete bound-constrained front end (model/M_C04_BC.v) on the same logged oracles
+        ws, up, sc = case['flags']
+        return ('enc_bc_run (bc_front %s (scripted %s %s %s %s) (fun _ => %s) (Build_bc_flags %s %s %s) %s %s %s %s %s %s)' %
+                (cfg, subs, cons, grads, lins, cvec(rec.warm_dx if rec.warm_dx is not None else []),
+                 'true' if ws else 'false', 'true' if up else 'false', 'true' if sc else 'false',
+                 cvec(case['scaling']), cvec(case['isc']), cvec(case['sc_c']), cvec(case['kappa0']), cvec(case['x0']), cvec(case['lam0'])))
     return ('enc_run (al_solve %s (scripted %s %s %s %s) %s %s %s %s)' %
             (cfg, subs, cons, grads, lins, cvec(case['kappa0']), cvec(case['x0']), cvec(case['lam0']), cvec(case['kap0'])))
 
@@ -938,6 +965,22 @@ def parse_trace(z, n, m):
             evs.append(('after', it, x, lam, kap, ncpe, grew, fl(1)[0], poor))
         elif tag in (7, 8):
             evs.append(('ret' if tag == 7 else 'nc', fl(n), fl(m), fl(m)))
+        elif tag == 11:      # ---- events of the bound-constrained front end (enc_bc_event / enc_bc_outcome of model/M_C04_BC.v)
+            evs.append(('reset', fl(m)))
+        elif tag == 12:
+            evs.append(('bcpu', fl(n)))
+        elif tag == 13:
+            evs.append(('warm', fl(n), fl(n)))
+        elif tag == 14:
+            evs.append(('assign', bool(iz())))
+        elif tag == 15:
+            evs.append(('spcb', fl(n)))
+        elif tag == 16:
+            evs.append(('nested',))
+        elif tag == 17:
+            evs.append(('bcret', fl(n), fl(m), fl(m), fl(m)))
+        elif tag == 18:
+            evs.append(('bcnc',))
         else:
             raise C.CoqError('unparsable model trace at %d: tag %r' % (i, tag))
     return evs
@@ -1170,6 +1213,250 @@ def l1_missing(case, rec, out):
     if out[0] == 'ret' and not afters:
         miss.append('normal return without any sub-step / termination test being observed')
     return miss
+
+
+# ============================================================================ bound_constrained_solve: executed trace correspondence
+
+BC_FLAGS = [(ws, up, sc) for ws in (False, True) for up in (False, True) for sc in (False, True)]
+_BC_OBJS = {}
+
+
+def bc_trace_cases(ctx):
+    """cases are deterministic from (n, m, seed, style, flags); the objective of a shape is deterministic from (n, m)"""
+    r = ctx.rng('bctrace')
+    shapes = [(2, 1), (3, 2), (4, 3), (3, 3)] if ctx.tier == 'thorough' else [(2, 1), (3, 2)]
+    order = list(BC_FLAGS)
+    r.shuffle(order)
+    cases = []
+    for (n, m) in shapes:
+        for k in range(ctx.n(8, 24)):
+            cases.append(dict(kind='bct', n=n, m=m, seed=r.randrange(1 << 30), style=k % 4, flags=list(order[(k + n) % 8])))
+    return cases
+
+
+def bc_object(M, n, m):
+    """one BoundConstrainedObjective per shape (jit compilation amortised): f(x, p) = 1/2 x'Qx + q.x with (Q, q) = p[0]; the dof
+    scaling comes from the preconditioner of the construction point (non-trivial, != 1), constrained dofs idx"""
+    if (n, m) not in _BC_OBJS:
+        jax, jnp, onp = M['jax'], M['jnp'], M['onp']
+        from optimism import Objective
+        from scipy.sparse import csc_matrix, diags
+        r = random.Random(1000 * n + m)
+        idx = sorted(r.sample(range(n), m))
+
+        def f(x, p, n=n):
+            Q = p[0][:n * n].reshape(n, n)
+            return 0.5 * x @ Q @ x + p[0][n * n:] @ x
+
+        class Strat:
+            def initialize(self, x, p):
+                self.K = csc_matrix(onp.array(jax.hessian(f)(jnp.array(x), p)))
+
+            def precond_at_attempt(self, attempt):
+                return self.K if attempt == 0 else self.K + diags(10.0 ** (-5 + attempt) * onp.abs(self.K.diagonal()), 0, format='csc')
+        G = onp.array([[r.uniform(-1, 1) for _ in range(n)] for _ in range(n)])
+        Q = G @ G.T + onp.diag([10.0 ** r.uniform(-0.5, 1) for _ in range(n)])
+        p0 = Objective.Params(bc_data=jnp.array(onp.concatenate([Q.ravel(), onp.zeros(n)])))
+        with quiet():
+            obj = M['BCO'].BoundConstrainedObjective(f, jnp.array([r.uniform(0.1, 1) for _ in range(n)]), p0, jnp.array(idx),
+                                                     constraintStiffnessScaling=r.choice([0.5, 3.0]), precondStrategy=Strat())
+        _BC_OBJS[(n, m)] = (obj, idx)
+    return _BC_OBJS[(n, m)]
+
+
+class BCRecorder(Recorder):
+    """the Recorder around BoundConstrainedSolver.bound_constrained_solve: additionally records the front end's own actions in order
+    (reset_kappa, its update_precond calls with their argument, the warm-start increment -- real CG answer or a scripted one --, every
+    store to objective.p, the sub_problem_callback argument) and the returned point / get_multipliers()"""
+
+    def run_bc(self, x0, p_new, als, subs, flags, warm_mode):
+        M, obj, onp, jnp = self.M, self.obj, self.M['onp'], self.M['jnp']
+        BCS = M['BCS']
+        WS = BCS.WarmStart
+        rec = self
+        ws, up, sc = flags
+        self.front = []
+        self.warm_dx = None
+        self.mult = None
+        o_ws = WS.warm_start_increment
+        o_reset = obj.reset_kappa
+        cls = type(obj)
+
+        def reset_kappa():
+            o_reset()
+            rec.front.append(('reset', onp.array(obj.kappa)))
+
+        def warm_start_increment(objective, x, pNew, index=0):
+            rec.flush()
+            if warm_mode[0] == 'real':
+                rec.in_solver = True
+                try:
+                    dx = onp.array(o_ws(objective, x, pNew, index))
+                finally:
+                    rec.in_solver = False
+            else:
+                dx = onp.array([rec.r.gauss(0, warm_mode[1]) for _ in range(rec.n)])
+            rec.text()
+            rec.warm_dx = dx
+            rec.front.append(('warm', onp.array(x), dx))
+            return jnp.array(dx)
+
+        class Spy(cls):
+            @property
+            def p(s):
+                return s.__dict__['p']
+
+            @p.setter
+            def p(s, v):
+                s.__dict__['p'] = v
+                rec.front.append(('setp', v is p_new))
+
+        def spcb(x, o):
+            rec.front.append(('spcb', onp.array(x)))
+
+        def call(callback, sub_solver):
+            x = BCS.bound_constrained_solve(obj, jnp.array(x0), p_new, als, subs, callback=callback, sub_problem_callback=spcb if sc else None,
+                                            useWarmStart=ws, updatePrecond=up, sub_problem_solver=sub_solver)
+            rec.mult = onp.array(obj.get_multipliers())
+            return x
+        obj.reset_kappa = reset_kappa
+        WS.warm_start_increment = warm_start_increment
+        obj.__class__ = Spy
+        try:
+            out = self.run(x0, als, subs, call=call)
+        finally:
+            obj.__class__ = cls
+            WS.warm_start_increment = o_ws
+            del obj.reset_kappa
+        if out[0] == 'ret':      # the conclusion is judged at the scaled point the loop returned (last callback), not at invScaling*xBar
+            xb = [e for e in self.events if e[0] == 'cb'][-1][2]
+            self.final_c = onp.array(obj.constraint(jnp.array(xb)))
+            self.final_g = onp.array(obj.total_residual(jnp.array(xb)))[:self.n]
+        return out
+
+
+def run_bc_trace_case(M, case):
+    onp, jnp, Al, Eq = M['onp'], M['jnp'], M['Al'], M['Eq']
+    from optimism import Objective
+    n, m = case['n'], case['m']
+    obj, idx = bc_object(M, n, m)
+    r = random.Random(case['seed'])
+    G = onp.array([[r.uniform(-1, 1) for _ in range(n)] for _ in range(n)])
+    Q = G @ G.T + onp.diag([10.0 ** r.uniform(-0.5, 1) for _ in range(n)])
+    xu = onp.array([r.uniform(-2, 2) for _ in range(n)])
+    q = -Q @ xu
+    p_new = Objective.Params(bc_data=jnp.array(onp.concatenate([Q.ravel(), q])))
+    dq = onp.array([r.gauss(0, 1.0) for _ in range(n)]) * r.choice([0.0, 0.1, 1.0])
+    p_old = Objective.Params(bc_data=jnp.array(onp.concatenate([Q.ravel(), q + dq])))
+    style = case['style']
+    maxit = r.choice([3, 5, 8]) if style >= 2 else r.choice([6, 10, 14])
+    settings = dict(ps=r.choice([1.0, 2.0, 4.0]), tdf=r.choice([0.75, 0.5, 0.9]), second=style in (1, 2), nlow=r.choice([0, 1, 2]),
+                    maxit=maxit, tol=r.choice([1e-6, 1e-8, 1e-3]), subtol=r.choice([1e-9, 1e-10]))
+    # styles: 0 real sub-solver, first order; 1 real sub + real linear update; 2 arbitrary everything; 3 noisy sub-solver, arbitrary flags
+    if style in (0, 1):
+        sub, lin = [('real', 0, None)], [('real', 1.0)]
+    elif style == 2:
+        sub = [('rand', 0, r.random() < 0.7) for _ in range(maxit)]
+        lin = [('rand', 10.0 ** r.uniform(-3, 0), r.choice([0, 0, 1])) for _ in range(maxit)]
+    else:
+        sub = [('noisy', 10.0 ** r.uniform(-9, -2), r.choice([None, True, False])) for _ in range(maxit)]
+        lin = [('real', 1.0)]
+    warm_mode = ('real',) if r.random() < 0.5 else ('rand', 10.0 ** r.uniform(-3, 0))
+    x0 = onp.array([abs(r.uniform(0, 1)) for _ in range(n)])
+    lam0 = onp.array([r.choice([0.0, r.uniform(0, 1)]) for _ in range(m)])
+    kappa0 = onp.array(obj.constraintKappa)
+    ones = onp.ones(n)
+    case.update(settings=settings, kappa0=kappa0, x0=x0, lam0=lam0, kap0=kappa0, scaling=onp.array(obj.scaling) * ones,
+                isc=onp.array(obj.invScaling) * ones, sc_c=(onp.array(obj.scaling) * ones)[idx], idx=idx)
+    obj.p = p_old
+    obj.lam = jnp.array(lam0)
+    obj.kappa = jnp.array(kappa0 * r.choice([1.0, 2.0, 8.0]))       # left over from an earlier solve: reset_kappa must discard it
+    als = Al.get_settings(penalty_scaling=settings['ps'], target_constraint_decrease_factor=settings['tdf'],
+                          use_second_order_update=settings['second'], num_initial_low_order_iterations=settings['nlow'],
+                          max_al_iters=maxit, tol=settings['tol'])
+    subs = Eq.get_settings(tol=settings['subtol'], max_trust_iters=200)
+    rec = BCRecorder(M, obj, n, m, dict(sub=sub, lin=lin, need_precond=True), random.Random(case['seed'] + 1))
+    with quiet():
+        obj.update_precond(jnp.array(obj.scaling * jnp.array(x0)))
+    out = rec.run_bc(x0, p_new, als, subs, tuple(case['flags']), warm_mode)
+    return (case, rec, out)
+
+
+def bc_front_events(rec):
+    """the recorder's front-end list in the model's vocabulary: the first store to .p is the front end's (flag: after a warm start),
+    the second the nested solve's prologue"""
+    evs, nset, warmed = [], 0, False
+    for e in rec.front:
+        if e[0] == 'setp':
+            nset += 1
+            evs.append(('assign', warmed, e[1]) if nset == 1 else ('nested', e[1]) if nset == 2 else ('extra-assign', e[1]))
+        else:
+            warmed = warmed or e[0] == 'warm'
+            evs.append(e)
+    return evs
+
+
+def bc_trace_conclusion(case, rec, out):
+    """conclusions of C04_bound_front_end_return on a recorded run (any oracles, any flags)"""
+    bad = list(l1_conclusion(case, rec, out))
+    fr = bc_front_events(rec)
+    for e in fr:
+        if e[0] in ('assign', 'nested', 'extra-assign') and not e[-1]:
+            bad.append('a store to objective.p in bound_constrained_solve did not install the parameters of this call')
+    if [e[0] for e in fr].count('assign') != 1 or any(e[0] == 'extra-assign' for e in fr):
+        bad.append('objective.p is not assigned exactly once by the front end and once by the nested solve: %r' % [e[0] for e in fr])
+    ia = [e[0] for e in fr].index('assign') if 'assign' in [e[0] for e in fr] else len(fr)
+    if any(e[0] == 'warm' for e in fr[ia:]):
+        bad.append('warm start evaluated after the new parameters were installed')
+    cbs = [e for e in rec.events if e[0] == 'cb']
+    if cbs and not all(float(a) == float(b) for a, b in zip(cbs[0][4], case['kappa0'])):
+        bad.append('the nested solve did not start from kappa = constraintKappa (reset_kappa): %r' % [float(a) for a in cbs[0][4]])
+    if out[0] == 'ret':
+        if not all(float(a) >= 0.0 for a in rec.mult):
+            bad.append('get_multipliers() negative at the return: %r' % [float(a) for a in rec.mult])
+        if not all(float(k) >= float(k0) > 0.0 for k, k0 in zip(out[3], case['kappa0'])):
+            bad.append('a penalty is below constraintKappa at the return')
+    return bad
+
+
+def compare_bc_traces(case, rec, out, mev):
+    """front-end events one by one, then the outer-loop events through compare_traces, then the returned point and multipliers"""
+    fr = bc_front_events(rec)
+    k = 0
+    while k < len(mev) and mev[k][0] in ('reset', 'bcpu', 'warm', 'assign', 'spcb', 'nested'):
+        k += 1
+    mfr, rest = mev[:k], mev[k:]
+    for j, (a, b) in enumerate(zip(fr, mfr)):
+        if a[0] != b[0]:
+            return 'front-end event %d: implementation %s, model %s' % (j, a[0], b[0]), False
+        if a[0] == 'assign':
+            ok = a[1] == b[1]
+        elif a[0] == 'nested':
+            ok = True
+        elif a[0] == 'warm':
+            ok = vclose(a[1], b[1]) and vclose(a[2], b[2])
+        else:
+            ok = vclose(a[1], b[1])
+        if not ok:
+            return 'front-end event %d (%s): implementation %r, model %r' % (j, a[0], _short(a), _short(b)), False
+    if len(fr) != len(mfr):
+        return 'front-end traces differ: implementation %r, model %r' % ([e[0] for e in fr], [e[0] for e in mfr]), False
+    if not rest:
+        return 'model trace has no outcome', False
+    last = rest[-1]
+    mcb = [e for e in rest if e[0] == 'cb']
+    if out[0] == 'ret':
+        if last[0] != 'bcret':
+            return 'implementation returned, model %s' % last[0], False
+        icb = [e for e in rec.events if e[0] == 'cb']
+        why, near = compare_traces(case, rec, ('ret', icb[-1][2], out[2], out[3]), rest[:-1] + [('ret', mcb[-1][2] if mcb else [], last[3], last[4])])
+        if why is None and not (vclose(out[1], last[1]) and vclose(rec.mult, last[2])):
+            why = 'returned (x, get_multipliers()) implementation %r, model %r' % (_short((out[1], rec.mult)), (last[1], last[2]))
+        return why, near
+    if out[0] == 'nc':
+        maft = [e for e in rest if e[0] == 'after']
+        return compare_traces(case, rec, out, rest[:-1] + [('nc', [], maft[-1][3] if maft else [], maft[-1][4] if maft else [])] if last[0] == 'bcnc' else rest)
+    return 'implementation left through an exception: %s' % (out[4] if len(out) > 4 else out[0]), False
 
 
 # ============================================================================ NewtonSolver.globalized_newton_step: model tie + descent conclusion
@@ -1486,6 +1773,53 @@ def correspondence(ctx, model_ok):
         ctx.count('newton_globalisation_comparisons', len(gruns))
         ctx.count('newton_globalisation_mismatches', gm)
         ctx.count('newton_globalisation_unstable_near_tie', gu)
+    # ---------------- NewtonSolver oddity (last cutback's residual never tested) is outside C04 as long as AlSolver never calls the function
+    import ast
+    import os
+    tree = ast.parse(open(os.path.join(C.REPO, 'optimism', 'AlSolver.py')).read())
+    ncalls = sum(1 for nd in ast.walk(tree) if isinstance(nd, ast.Call) and ((isinstance(nd.func, ast.Name) and nd.func.id == 'globalized_newton_step')
+                                                                           or (isinstance(nd.func, ast.Attribute) and nd.func.attr == 'globalized_newton_step')))
+    ctx.cov['globalized_newton_step_called_by_AlSolver'] = ncalls
+    if ncalls:
+        ctx.fail('correspondence', 'AlSolver.py now calls globalized_newton_step (%d call sites): the outer-loop model has no such call and the documented '
+                 'oddity of its last cutback would then lie inside the property' % ncalls, case=dict(kind='ast'))
+    # ---------------- L1d: bound_constrained_solve, the WHOLE front end executed against the model bc_front event by event
+    bruns = [run_bc_trace_case(M, cs_) for cs_ in bc_trace_cases(ctx)]
+    ctx.count('evaluations', len(bruns))
+    bhist = {}
+    for case, rec, out in bruns:
+        key = 'ws=%d up=%d subcb=%d %s' % (tuple(int(b) for b in case['flags']) + (out[0],))
+        bhist[key] = bhist.get(key, 0) + 1
+        distinct.add(('bct', case['n'], case['m'], tuple(case['flags']), tuple(e[0] for e in rec.events), out[0]))
+        bcase = dict(kind='bct', n=case['n'], m=case['m'], seed=case['seed'], style=case['style'], flags=case['flags'])
+        for b in bc_trace_conclusion(case, rec, out):
+            ctx.fail('conclusion', 'bound_constrained_solve history (n=%d m=%d seed=%d style=%d flags=%r): %s' % (case['n'], case['m'], case['seed'], case['style'], case['flags'], b),
+                     case=bcase, concrete=True)
+        miss = l1_missing(case, rec, out)
+        if miss:
+            ctx.fail('correspondence', 'bound_constrained_solve history (n=%d m=%d seed=%d style=%d): %s' % (case['n'], case['m'], case['seed'], case['style'], '; '.join(miss[:3])), case=bcase)
+    ctx.cov['bound_front_end_trace_histogram'] = bhist
+    if model_ok:
+        bres = C.coq_eval(IMPORTS, [model_expr(case, rec) for case, rec, out in bruns], 'C04b', shard=12, timeout=900)
+        bm = bu = 0
+        for (case, rec, out), z in zip(bruns, bres):
+            try:
+                why, near = compare_bc_traces(case, rec, out, parse_trace(z, case['n'], case['m']))
+            except (IndexError, C.CoqError):
+                why, near = 'model trace leaves the implementation\'s path (oracle sites never evaluated by the implementation)', False
+            if why is None:
+                continue
+            if near:
+                bu += 1
+                continue
+            bm += 1
+            if bm <= 5:
+                ctx.fail('correspondence', 'bc_front model vs bound_constrained_solve (n=%d m=%d seed=%d style=%d flags=%r): %s' % (case['n'], case['m'], case['seed'], case['style'], case['flags'], why),
+                         case=dict(kind='bct', n=case['n'], m=case['m'], seed=case['seed'], style=case['style'], flags=case['flags']))
+        ctx.count('bound_front_end_trace_comparisons', len(bruns))
+        ctx.count('bound_front_end_trace_events_compared', sum(len(rec.front) + len(rec.events) + 1 for _, rec, _ in bruns))
+        ctx.count('bound_front_end_trace_mismatches', bm)
+        ctx.count('bound_front_end_trace_unstable_near_tie', bu)
     # ---------------- L1b: outer loop, scripted oracles, event traces
     runs = run_l1(ctx)
     ctx.count('evaluations', len(runs))
@@ -1580,6 +1914,11 @@ def replay(ctx, path):
         cs, rec, out = run_mock_case(mods(), dict(case))
         bad = l1_conclusion(cs, rec, out)
         print('implementation now (AlSolver loop on the recorded scripted objective):', bad or 'conclusion holds')
+        return 1 if bad else 0
+    if case and case.get('kind') == 'bct':
+        cs, rec, out = run_bc_trace_case(mods(), dict(case))
+        bad = bc_trace_conclusion(cs, rec, out)
+        print('implementation now (bound_constrained_solve on the recorded scripted history):', bad or 'conclusion holds')
         return 1 if bad else 0
     if case and case.get('kind') == 'gn':
         run = run_gn_case(mods(), dict(case))
